@@ -1,6 +1,7 @@
 """C10 — exactly one, correctly coded, final response (Tunnel.tla CodeTable / ExactlyOne / ReservedNeverDialled)."""
 from vlib import *
 import c01
+import c15
 
 
 def run(ctx):
@@ -13,6 +14,9 @@ def run(ctx):
     os.remove(s["out"])
     if rr["counters"].get("vectors", 0) < 5:
         raise ToolError("real-forwarder job ran only %d vectors" % rr["counters"].get("vectors", 0))
+    # multiplexer requests with the REAL SOCKS5 forwarder: its credentials probe against an upstream that fails in every
+    # way (Socks5.tla dialogue -> class -> the response TunnelCodes.tla gives for it)
+    pj = c15.socks_probe_job(ctx)
     import h3_jobs
     h3 = h3_jobs.h3_job(ctx)
     h3a = h3.pop("h3_assumptions")
@@ -20,16 +24,24 @@ def run(ctx):
     cov["evaluations"] += h3["h3_evaluations"]
     cov["traces_validated_against_impl"] += h3["h3_evaluations"]
     cov["real_forwarder_vectors"] = rr["counters"]["vectors"]
-    cov["evaluations"] += rr["evaluations"]
-    cov["traces_validated_against_impl"] += rr["evaluations"]
+    cov["evaluations"] += rr["evaluations"] + pj["evaluations"]
+    cov["traces_validated_against_impl"] += rr["evaluations"] + pj["counters"].get("tunnel_level_requests", 0)
+    cov["socks5_probe_requests"] = pj["counters"].get("tunnel_level_requests", 0)
+    cov["socks5_flow_handshakes"] = pj["counters"].get("tunnel_level_flow_handshakes", 0)
+    cov["states"] += pj["tlc"]["distinct"]
+    cov["transitions"] += pj["tlc"]["states"]
     cov["rule"] = ("same vectors as C01 (TLC-enumerated Tunnel.tla points replayed into the real tunnel over HTTP/1.1 and HTTP/2); the oracle is the "
                    "specification's FinalSet: status 200/407/502, X-Warning 300/301/302/310/311, X-Adguard-Vpn-Error presence, exactly one response "
                    "per request, reserved authorities and port-less CONNECTs never reaching the connector; outbound outcomes include refused, "
                    "unreachable, connector timeout, never-completing connect (establishment timer under the paused clock), policy refusals, resolver "
-                   "failure, EMFILE, multiplexer creation failure and ICMP not configured. Non-trivial = not (valid credentials and successful connect).")
+                   "failure, EMFILE, multiplexer creation failure and ICMP not configured; a multiplexer request made with credentials x every "
+                   "outcome of the forwarder's credentials probe (scripted: ok, Authentication, Io, Other, Timeout, HostUnreachable - the response is "
+                   "the table's for that error, 407 only for Authentication; real SOCKS5 forwarder: upstream refusing the connection, ending it after "
+                   "every number of octets, silent, refusing the credentials or every method, replying with every failure code, malformed). Non-trivial = not (valid credentials and successful connect).")
     # HTTP/3: the response head of a CONNECT while another tunnel of the session uses up the connection's send capacity
     cov["h3_response_head_under_contention"] = __import__("h3conc_jobs").response_head_under_contention_job(ctx)
     return ctx.finish("model_checking", cov, assumptions=[
+        "SOCKS5 probe: a failure reply that names a cause (unreachable, TTL expired) may be reported as that cause or as a plain failure (300); the silent upstream is bounded by a 150 ms establishment timeout and the answer awaited for 6 s of real time",
         "most outbound outcomes are injected through the scripted forwarder; ok / refused / ENETUNREACH / policy refusals / resolver failure are additionally produced by the real TcpForwarder on loopback (connect timeout and EHOSTUNREACH cannot be produced offline)",
         "trusted: TLC, scripted forwarder / HTTP clients, verif::tunnel door",
     ] + h3a)
